@@ -536,4 +536,220 @@ theorem send_notifies_once {s s' : State} {blk : Block} {snd : Addr} {msg : Msg}
   case sendFrom o c amt p =>
     obtain ⟨_, _, _, _, _, _, _, _, _, ho⟩ := execSendFrom_inv h; exact ho
 
+/-! ## Clause 3: over any history a spender never moves more than the owner cumulatively granted
+
+A ghost ledger is threaded through the run.  It is pure bookkeeping: `gstep_state` / `grun_state` show
+the contract state of the ghost run is exactly the plain run. -/
+
+/-- Ledger lookup (0 if absent). -/
+def tot (m : AMap (Addr × Addr) Nat) (p : Addr × Addr) : Nat := (m.get? p).getD 0
+
+/-- Add `n` to the ledger entry of `p` when `k = some (p, n)`. -/
+def bumpOpt (m : AMap (Addr × Addr) Nat) (k : Option ((Addr × Addr) × Nat)) : AMap (Addr × Addr) Nat :=
+  match k with
+  | some (p, n) => m.set p (tot m p + n)
+  | none => m
+
+/-- The increment `bumpOpt m k` applies at pair `p`. -/
+def incOpt (k : Option ((Addr × Addr) × Nat)) (p : Addr × Addr) : Nat :=
+  match k with
+  | some (q, n) => if q = p then n else 0
+  | none => 0
+
+theorem tot_bumpOpt (m : AMap (Addr × Addr) Nat) (k : Option ((Addr × Addr) × Nat)) (p : Addr × Addr) :
+    tot (bumpOpt m k) p = tot m p + incOpt k p := by
+  cases k with
+  | none => simp [bumpOpt, incOpt]
+  | some qn =>
+    obtain ⟨q, n⟩ := qn
+    simp only [bumpOpt, incOpt, tot, AMap.get?_set]
+    by_cases e : q = p
+    · subst e; simp
+    · simp [e]
+
+/-- The pair `(owner, spender)` and amount granted by this call: `IncreaseAllowance{sp, amt}` by `snd`. -/
+def grantKey (snd : Addr) (msg : Msg) : Option ((Addr × Addr) × Nat) :=
+  (grantOf msg).map fun x => ((snd, x.1.text), x.2)
+
+/-- The pair `(owner, spender)` and amount drawn by this call: a `*From{owner, amt}` by `snd`. -/
+def drawKey (snd : Addr) (msg : Msg) : Option ((Addr × Addr) × Nat) :=
+  (drawOf msg).map fun x => ((x.1.text, snd), x.2)
+
+/-- The pair and the number of tokens that actually left the owner's balance in this call. -/
+def movedKey (s s' : State) (snd : Addr) (msg : Msg) : Option ((Addr × Addr) × Nat) :=
+  (drawOf msg).map fun x => ((x.1.text, snd), bal s x.1.text - bal s' x.1.text)
+
+/-- Ghost-augmented state: the contract state plus three ledgers keyed `(owner, spender)`:
+`granted` = Σ amounts of successful `IncreaseAllowance` by owner for spender,
+`drawn` = Σ amounts of successful `TransferFrom`/`SendFrom`/`BurnFrom` by spender on owner,
+`moved` = Σ tokens that actually left owner's balance in those draws. -/
+structure G where
+  s : State
+  granted : AMap (Addr × Addr) Nat
+  drawn : AMap (Addr × Addr) Nat
+  moved : AMap (Addr × Addr) Nat
+
+/-- One transaction on the ghost state: commit and book on success, roll back on error. -/
+def gstep (g : G) (blk : Block) (snd : Addr) (msg : Msg) : G :=
+  match execute g.s blk snd msg with
+  | .ok (s', _) =>
+    { s := s'
+      granted := bumpOpt g.granted (grantKey snd msg)
+      drawn := bumpOpt g.drawn (drawKey snd msg)
+      moved := bumpOpt g.moved (movedKey g.s s' snd msg) }
+  | .error _ => g
+
+/-- Histories: any list of (block, sender, message); failed calls roll back. -/
+def run (s : State) (ops : List (Block × Addr × Msg)) : State :=
+  ops.foldl (fun s op => step s op.1 op.2.1 op.2.2) s
+
+def grun (g : G) (ops : List (Block × Addr × Msg)) : G :=
+  ops.foldl (fun g op => gstep g op.1 op.2.1 op.2.2) g
+
+/-- Fresh ledgers around a freshly instantiated state. -/
+def ginit (s : State) : G := ⟨s, [], [], []⟩
+
+theorem gstep_state (g : G) (blk : Block) (snd : Addr) (msg : Msg) :
+    (gstep g blk snd msg).s = step g.s blk snd msg := by
+  unfold gstep step
+  split <;> simp_all
+
+/-- The ghost ledgers do not influence the contract: the state of the ghost run is the plain run. -/
+theorem grun_state (g : G) (ops : List (Block × Addr × Msg)) : (grun g ops).s = run g.s ops := by
+  induction ops generalizing g with
+  | nil => rfl
+  | cons op rest ih =>
+    simp only [grun, run, List.foldl_cons] at ih ⊢
+    rw [ih, gstep_state]
+
+/-- What the ledgers record, made explicit: a failing call books nothing; a successful call adds its
+`amt` to `granted (snd, sp)` iff it is `IncreaseAllowance{sp, amt}`, to `drawn (o, snd)` iff it is a
+`*From{o, amt}`. -/
+theorem ghost_meaning (g : G) (blk : Block) (snd : Addr) (msg : Msg) (p : Addr × Addr) :
+    (∀ e, execute g.s blk snd msg = .error e → gstep g blk snd msg = g) ∧
+    (∀ r, execute g.s blk snd msg = .ok r →
+      tot (gstep g blk snd msg).granted p = tot g.granted p + incOpt (grantKey snd msg) p ∧
+      tot (gstep g blk snd msg).drawn p = tot g.drawn p + incOpt (drawKey snd msg) p ∧
+      tot (gstep g blk snd msg).moved p = tot g.moved p + incOpt (movedKey g.s r.1 snd msg) p) := by
+  constructor
+  · intro e h; simp [gstep, h]
+  · intro r h
+    obtain ⟨s', out⟩ := r
+    simp [gstep, h, tot_bumpOpt]
+
+/-- Per-call accounting of the allowance of any pair `p`: what a successful call leaves plus what it
+draws is at most what was there plus what it grants (equality except for `DecreaseAllowance`). -/
+theorem allowance_step {s s' : State} {blk : Block} {snd : Addr} {msg : Msg} {out : List Out}
+    (h : execute s blk snd msg = .ok (s', out)) (p : Addr × Addr) :
+    (allowance s' p).amount + incOpt (drawKey snd msg) p ≤
+      (allowance s p).amount + incOpt (grantKey snd msg) p := by
+  cases hd : drawOf msg with
+  | some x =>
+    obtain ⟨o, amt⟩ := x
+    have hg : grantOf msg = none := by cases msg <;> simp [drawOf] at hd <;> rfl
+    obtain ⟨_, al, al2, b1, e1, _, e3, _, _, _, e7, _⟩ := draw_inv h hd
+    simp only [drawKey, grantKey, hd, hg, incOpt, Option.map_some, Option.map_none, allowance, e7,
+      AMap.get?_set]
+    by_cases e : (o.text, snd) = p
+    · subst e; simp [e1]; omega
+    · simp [e]
+  | none =>
+    cases msg <;> simp only [drawOf, reduceCtorEq] at hd <;> simp only [execute] at h <;>
+      simp only [drawKey, grantKey, drawOf, grantOf, incOpt, Option.map_some, Option.map_none, allowance]
+    case transfer to amt =>
+      obtain ⟨_, b1, b2, _, _, rfl, _⟩ := execTransfer_inv h; simp
+    case send c amt p' =>
+      obtain ⟨_, b1, b2, _, _, rfl, _⟩ := execSend_inv h; simp
+    case burn amt =>
+      obtain ⟨b1, _, _, rfl, _⟩ := execBurn_inv h; simp
+    case mint to amt =>
+      obtain ⟨b, _, _, e1, _⟩ := execMint_inv h; rw [e1]; simp
+    case updateMinter new =>
+      obtain ⟨_, _, e1, _⟩ := execUpdateMinter_inv h; rw [e1]; simp
+    case increaseAllowance spArg amt e =>
+      obtain ⟨_, _, _, _, _, rfl, _⟩ := execIncreaseAllowance_inv h
+      simp only [AMap.get?_set]
+      by_cases e : (snd, spArg.text) = p
+      · subst e; simp
+      · simp [e]
+    case decreaseAllowance spArg amt e =>
+      obtain ⟨_, _, old, hold, _, hc⟩ := execDecreaseAllowance_inv h
+      rcases hc with ⟨_, _, rfl⟩ | ⟨_, rfl⟩
+      · simp only [AMap.get?_set]
+        by_cases e : (snd, spArg.text) = p
+        · subst e; simp [hold]
+        · simp [e]
+      · simp only [AMap.get?_erase]
+        by_cases e : (snd, spArg.text) = p
+        · subst e; simp [Allowance.default]
+        · simp [e]
+
+/-- Per call, the tokens that actually leave the owner's balance are at most the amount drawn. -/
+theorem moved_step {s s' : State} {blk : Block} {snd : Addr} {msg : Msg} {out : List Out}
+    (h : execute s blk snd msg = .ok (s', out)) (p : Addr × Addr) :
+    incOpt (movedKey s s' snd msg) p ≤ incOpt (drawKey snd msg) p := by
+  cases hd : drawOf msg with
+  | none => simp [movedKey, drawKey, hd, incOpt]
+  | some x =>
+    obtain ⟨o, amt⟩ := x
+    have := (draw_bal h hd o.text).2
+    simp only [movedKey, drawKey, hd, incOpt, Option.map_some]
+    split <;> simp [this]
+
+/-- The ledger invariant. -/
+def GInv (g : G) : Prop :=
+  ∀ p, tot g.drawn p + (allowance g.s p).amount ≤ tot g.granted p ∧ tot g.moved p ≤ tot g.drawn p
+
+theorem ginit_inv {m : InstMsg} {s : State} (h : instantiate m = .ok s) : GInv (ginit s) := by
+  simp [instantiate] at h
+  obtain ⟨_, _, b, t, _, _, w, _, rfl⟩ := h
+  intro p
+  simp [ginit, tot, allowance, Allowance.default]
+
+theorem gstep_inv {g : G} (blk : Block) (snd : Addr) (msg : Msg) (hi : GInv g) :
+    GInv (gstep g blk snd msg) := by
+  unfold gstep
+  split
+  · rename_i s' out h
+    intro p
+    have h1 := allowance_step h p
+    have h2 := moved_step h p
+    have := hi p
+    simp only [tot_bumpOpt]
+    omega
+  · exact hi
+
+theorem grun_inv {g : G} (ops : List (Block × Addr × Msg)) (hi : GInv g) : GInv (grun g ops) := by
+  induction ops generalizing g with
+  | nil => exact hi
+  | cons op rest ih => exact ih (gstep_inv op.1 op.2.1 op.2.2 hi)
+
+/-- **C02, cumulative bound.** After any accepted instantiation (allowances start empty) and any finite
+history of execute calls — any senders, any messages, any blocks, failed calls rolled back — for every
+pair `p = (owner, spender)`: everything the spender has drawn so far plus the allowance it still holds
+is at most everything the owner ever granted.  A chain executes calls one at a time, so every
+interleaving of several actors (including the reduce-allowance vs spend race, in either order) is one of
+these histories. -/
+theorem cumulative_bound {m : InstMsg} {s0 : State} (h : instantiate m = .ok s0)
+    (ops : List (Block × Addr × Msg)) (p : Addr × Addr) :
+    tot (grun (ginit s0) ops).drawn p + (allowance (run s0 ops) p).amount ≤
+      tot (grun (ginit s0) ops).granted p := by
+  have := (grun_inv ops (ginit_inv h) p).1
+  rwa [grun_state] at this
+
+/-- **C02, corollary**: over any history a spender never draws more than the owner cumulatively granted. -/
+theorem drawn_le_granted {m : InstMsg} {s0 : State} (h : instantiate m = .ok s0)
+    (ops : List (Block × Addr × Msg)) (p : Addr × Addr) :
+    tot (grun (ginit s0) ops).drawn p ≤ tot (grun (ginit s0) ops).granted p := by
+  have := cumulative_bound h ops p; omega
+
+/-- **C02, corollary in tokens**: the tokens a spender's draws actually removed from the owner's balance
+never exceed what the owner cumulatively granted to that spender. -/
+theorem moved_le_granted {m : InstMsg} {s0 : State} (h : instantiate m = .ok s0)
+    (ops : List (Block × Addr × Msg)) (p : Addr × Addr) :
+    tot (grun (ginit s0) ops).moved p ≤ tot (grun (ginit s0) ops).granted p := by
+  have h1 := (grun_inv ops (ginit_inv h) p).2
+  have h2 := drawn_le_granted h ops p
+  omega
+
 end CwPlus.Props.C02
